@@ -362,12 +362,38 @@ def foreign_caching_node_case(col, how):
     col.add(None if not bad else {"sig": "native::coherence::foreign_caching_node", "what": f"mu = -1 assigned, then {how} update: " + "; ".join(bad), "input": {"update": how}})
 
 
+def rebuilt_model_case(col, how):
+    """nodes outlive models: a variable that was assigned in an EARLIER model, taken out (pop_nodes_and_vars / copy_nodes_and_vars) and built into a new model
+    together with a NEW consumer - an assignment in the new model reaches the new consumer, its distribution and the model totals"""
+    import jax.numpy as jnp
+    import tensorflow_probability.substrates.jax.distributions as tfd_
+    x = lsl.Var(np.float32(1.0), name="x")
+    y = lsl.Var(jnp.zeros(2, jnp.float32), lsl.Dist(tfd_.Normal, loc=x, scale=1.0), name="y")
+    m1 = lsl.GraphBuilder().add(y).build_model()
+    m1.vars["x"].value = np.float32(2.0)  # the earlier model is used
+    nodes, vars_ = m1.pop_nodes_and_vars() if how == "pop" else m1.copy_nodes_and_vars()
+    x2 = vars_["x"]
+    z = lsl.Var(lsl.Calc(lambda v: 10.0 * v, x2), name="z")
+    w = lsl.Var(jnp.zeros(2, jnp.float32), lsl.Dist(tfd_.Normal, loc=z, scale=1.0), name="w")
+    m2 = lsl.GraphBuilder().add(*nodes.values(), *vars_.values(), w).build_model()
+    m2.vars["x"].value = np.float32(5.0)
+    bad = []
+    want_z = 50.0
+    want_lp = float(np.sum(tfd_.Normal(5.0, 1.0).log_prob(jnp.zeros(2))) + np.sum(tfd_.Normal(50.0, 1.0).log_prob(jnp.zeros(2))))
+    for nm, nd, wv in (("z", m2.nodes["z_value"], want_z), ("log_prob", m2.nodes["_model_log_prob"], want_lp)):
+        if nd.outdated:
+            bad.append(f"{nm} outdated after the automatic update")
+        elif not np.isclose(float(np.sum(np.asarray(nd.value))), wv, rtol=1e-5):
+            bad.append(f"{nm} reports up to date but holds {float(np.sum(np.asarray(nd.value)))}, from scratch {wv}")
+    col.add(None if not bad else {"sig": "native::coherence::model_rebuilt_from_used_nodes", "what": f"{how} + rebuild with a new consumer of x, then x = 5: " + "; ".join(bad), "input": {"round_trip": how}})
+
+
 def core_native(col, seed, n_graphs=4, n_hist=3, length=6):
     """the part of this stand-in that other properties re-run (their statements rest on the caching protocol): all scripted histories, the
     special scenarios, and a few seeded random graphs x histories; every violation found is reported under the calling property"""
     rng = random.Random(seed)
     for fn, args in ((set_seed_case, (True,)), (set_seed_case, (False,)), (failed_assignment_case, ()), (inplace_case, (True,)), (inplace_case, (False,)), (none_value_case, (True,)), (none_value_case, (False,)),
-                     (transformed_state_case, ("tree_map_asarray",)), (foreign_caching_node_case, ("auto",)), (foreign_caching_node_case, ("full",)), (foreign_caching_node_case, ("targeted",))):
+                     (transformed_state_case, ("tree_map_asarray",)), (foreign_caching_node_case, ("auto",)), (foreign_caching_node_case, ("full",)), (foreign_caching_node_case, ("targeted",)), (rebuilt_model_case, ("pop",)), (rebuilt_model_case, ("copy",))):
         try:
             fn(col, *args)
         except Exception as e:
@@ -388,7 +414,7 @@ def core_native(col, seed, n_graphs=4, n_hist=3, length=6):
 
 
 CORE_RULE = ("BOUNDED (shared with C01): the caching protocol: scripted histories on a join-shaped and a two-path graph, failed / in-place / None assignments, set_seed, a restored state with "
-             "array-valued flags, caching nodes that are neither Calc nor Dist (legacy PIT node, a user-defined Node subclass), and 4 seeded random graphs x 3 histories of 6 operations, each compared with a from-scratch rebuild")
+             "array-valued flags, caching nodes that are neither Calc nor Dist (legacy PIT node, a user-defined Node subclass), a model rebuilt (pop / copy) from nodes that were assigned in an earlier model plus a new consumer, and 4 seeded random graphs x 3 histories of 6 operations, each compared with a from-scratch rebuild")
 
 
 def bounded(tier, seed):
@@ -410,6 +436,11 @@ def bounded(tier, seed):
             transformed_state_case(col, how)
         except Exception as e:
             col.add({"sig": f"native::coherence::exception::{type(e).__name__}", "what": f"{type(e).__name__}: {str(e)[:200]}", "input": {"scenario": "restored state with array flags", "how": how}})
+    for how in ("pop", "copy"):
+        try:
+            rebuilt_model_case(col, how)
+        except Exception as e:
+            col.add({"sig": f"native::coherence::exception::{type(e).__name__}", "what": f"{type(e).__name__}: {str(e)[:200]}", "input": {"scenario": "model rebuilt from used nodes", "how": how}})
     for how in ("auto", "full", "targeted"):
         try:
             foreign_caching_node_case(col, how)
@@ -438,7 +469,7 @@ def bounded(tier, seed):
             except Exception as e:
                 col.add({"sig": f"native::coherence::exception::{type(e).__name__}", "what": f"{type(e).__name__}: {str(e)[:200]}", "input": {"graph": spec.nodes}})
     return {"evaluations": col.evals, "distinct_nontrivial": col.evals,
-            "rule": (f"BOUNDED: {len(SCRIPTS) + len(ORDER_SCRIPTS)} scripted histories on a join-shaped graph and on a graph where a node is reachable by two paths of different length (targeted update order) (outdated nodes left behind while auto-update is on again, then an assignment to a non-ancestor); a state with pending nodes restored after a JAX / numpy transformation (array-valued flags); None assigned to an optional input of a cached calculation; set_seed with auto-update on and off; caching nodes that are neither Calc nor Dist (legacy PIT node, user-defined Node subclass) under automatic / full / targeted update; {n_graphs} seeded random DAGs (1-3 strong variables with or without a distribution, 1-4 further nodes out of cached Calc, transient Calc, weak variable, weak "
+            "rule": (f"BOUNDED: {len(SCRIPTS) + len(ORDER_SCRIPTS)} scripted histories on a join-shaped graph and on a graph where a node is reachable by two paths of different length (targeted update order) (outdated nodes left behind while auto-update is on again, then an assignment to a non-ancestor); a state with pending nodes restored after a JAX / numpy transformation (array-valued flags); None assigned to an optional input of a cached calculation; set_seed with auto-update on and off; caching nodes that are neither Calc nor Dist (legacy PIT node, user-defined Node subclass) under automatic / full / targeted update; a model rebuilt from the popped / copied nodes of a USED model plus a new consumer; {n_graphs} seeded random DAGs (1-3 strong variables with or without a distribution, 1-4 further nodes out of cached Calc, transient Calc, weak variable, weak "
                      f"variable with distribution, bare Value node; 1-2 parents each) x {n_hist} random histories of {length} operations (assign, toggle auto-update, full update, targeted "
                      "update of a random node, Node.clear_state() of a random caching node, save, restore) on the real model; call counters in every node function; after every operation every up-to-date node is compared with a "
                      f"from-scratch rebuild at the current input values. seed={seed}"),
